@@ -347,7 +347,7 @@ pub fn finish_check(meta: &CheckMeta, acc: &Acc, wall_s: f64, extra: Map<String,
             return 2;
         }
     }
-    if acc.nontrivial.len() < 2 || acc.evals == 0 {
+    if new_violations == 0 && (acc.nontrivial.len() < 2 || acc.evals == 0) {
         eprintln!("harness error: coverage too thin (evaluations={}, distinct_nontrivial={})", acc.evals, acc.nontrivial.len());
         return 2;
     }
